@@ -14,10 +14,11 @@ FN_FLOOR = 8000
 
 CONFIGS = {
     'default': [],
-    'nodefault': ['--no-default-features'],
-    'els': ['--features', 'els'],
-    'debug': ['--features', 'debug'],
+    'nodefault': ['--no-default-features'],          # sequential analysis: no `parallel`
+    'debug': ['--features', 'debug'],                 # DEBUG_MODE code paths
+    'py_compat': ['--features', 'py_compat'],
 }
+EXTRA_CONFIGS = ['nodefault', 'debug', 'py_compat']
 
 
 class FactsError(Exception):
@@ -131,7 +132,8 @@ def ensure(config='default', repo=REPO, verbose=True):
 
 
 class Facts:
-    def __init__(self, config='default', repo=REPO):
+    def __init__(self, config=None, repo=REPO):
+        config = config or os.environ.get('ERGFACTS_CONFIG', 'default')
         self.repo = repo
         self.config = config
         self.dir = ensure(config, repo)
